@@ -466,7 +466,6 @@ static void part_fit(vfh::Rng &rng, vfh::Reporter &R, long ncases, int type) {
     Eigen::VectorXd Yn(N);
     double noise = rng.logu(1e-3, 1) * A0;
     for (long i = 0; i < N; ++i) Yn[i] = Yv[i] + noise * rng.normal();
-    if (bc == PERIODIC && withknots) Yn[N - 1] = Yn[0];
     J w2;
     w2.s("spline", tname(type)).s("bc", bcn).vec("fit_grid", ev(knots)).vec("x", ev(X)).vec("y", ev(Yn));
     ws = w2.str();
